@@ -33,6 +33,27 @@ def hostile(h, decimals=True):
         decimal.setcontext(old)
 
 
+class FrameBytes(bytes):
+    """a subclass of the documented argument type (what a buffer class of an application may be)"""
+
+
+import enum  # noqa: E402
+
+
+class Mode(enum.IntEnum):
+    GET = 0
+    SET = 1
+    POLL = 2
+    SETPOLL = 3
+
+
+def mode_arg(mode, h):
+    """the documented int, or a member of an IntEnum with that value (applications name their modes)"""
+    if h % 7 != 5 or mode not in (0, 1, 2, 3):
+        return mode
+    return Mode(mode)
+
+
 def taint(m):
     """what a caller may do with a result it owns: change, in place, every mutable PUBLIC value it was handed (lists of array
     attributes).  Another parse of the same bytes must not be affected"""
